@@ -1,5 +1,6 @@
 #include <nano/core/numeric.h>
 #include <solver/osga.h>
+#include <nano/verif.h>
 
 using namespace nano;
 
@@ -91,6 +92,7 @@ solver_state_t solver_osga_t::do_minimize(const function_t& function, const vect
 
     while (function.fcalls() + function.gcalls() < max_evals)
     {
+        NANO_VERIF_TRACE("osga.iter", alpha, eta, gamma, fb, h, u, xb);
         if (state.gx().lpNorm<Eigen::Infinity>() < epsilon0<scalar_t>())
         {
             const auto converged = true;
